@@ -95,6 +95,7 @@ def main():
                 print(c, r["exit"], r["signatures"][:2], r["notes"][:1], flush=True)
     finally:
         sh(["git", "-C", REPO, "checkout", "--", "."])
+        sh(["git", "-C", REPO, "clean", "-fdq", "cvss"])       # files a patch created
         sh([PY, os.path.join(VERIF, "tools", "gen_tables.py")])
     meta["checks"] = results
     meta["alarms"] = [c for c, r in results.items() if r["exit"] != 0]
